@@ -1,9 +1,10 @@
 CFG = dict(
-    lean_modules=["SaramaVerif.Model.Producer", "SaramaVerif.Props.C01", "SaramaVerif.Props.C18"],
+    lean_modules=["SaramaVerif.Model.Producer", "SaramaVerif.Props.C01", "SaramaVerif.Props.C18", "SaramaVerif.Model.Feeder", "SaramaVerif.Props.C18c"],
     lean_support=["SaramaVerif.Driver.ProducerTrace"],
     model="C18",
     overlay=["sim", "c18"],
-    required_theorems=["Props.C18.icept_only_first_pass", "Props.C18.producer_interceptors_once", "Props.C18.intercepted_was_submitted",
+    required_theorems=["Props.C18c.step_inv", "Props.C18c.consumer_interceptors_once", "Props.C18c.deliver_follows_icept", "Props.C18c.one_ack_per_response", "Props.C18c.nothing_after_closed",
+                       "Props.C18.icept_only_first_pass", "Props.C18.producer_interceptors_once", "Props.C18.intercepted_was_submitted",
                        "Props.C01.step_inv", "Props.C01.reachable_inv"],
     n={"quick": 500, "thorough": 8000, "search": 1000},
     thorough_seeds=3,
